@@ -199,6 +199,34 @@ impl ModuleSet {
         }
         seen
     }
+    /// The set without assignment `ai` of module `mi`, if that keeps the set well-formed:
+    /// nothing may still refer to it (locally, through IMPORTS or module-qualified) and no
+    /// module may become empty.
+    pub fn without_assign(&self, mi: usize, ai: usize) -> Option<ModuleSet> {
+        let m = &self.modules[mi];
+        if m.assigns.len() <= 1 {
+            return None;
+        }
+        let name = &m.assigns[ai].name;
+        let qualified = format!("{}.{}", m.name, name);
+        for (mj, other) in self.modules.iter().enumerate() {
+            for (aj, a) in other.assigns.iter().enumerate() {
+                if mj == mi && aj == ai {
+                    continue;
+                }
+                if a.refs.iter().any(|r| r == &qualified || (mj == mi && r == name)) {
+                    return None;
+                }
+                // a bare reference from another module goes through its IMPORTS
+            }
+            if mj != mi && other.imports.iter().any(|i| i.from == m.name && i.symbols.contains(name)) {
+                return None;
+            }
+        }
+        let mut s = self.clone();
+        s.modules[mi].assigns.remove(ai);
+        Some(s)
+    }
     pub fn n_assigns(&self) -> usize {
         self.modules.iter().map(|m| m.assigns.len()).sum()
     }
